@@ -10,6 +10,8 @@ package main
 //   trace   knut commands on generated journals with KNUT_VERIF_TRACE / KNUT_VERIF_SEED: trace vs acceptor,
 //           stdout / exit status vs the unperturbed run
 //   race    the processor matrix under the race-instrumented binary with several seeds
+//   grow    journals over hundreds of days in which accounts, commodities, positions and prices keep appearing × random
+//           combinations of the report flags on balance and register, under the race detector and on the normal binary
 //   loader  include trees (valid, with errors): census of `knut print` vs the model, no-loss/no-dup monitor,
 //           error trees must fail and never hang
 
@@ -310,6 +312,30 @@ func runProc(timeout time.Duration, dir string, env []string, bin string, args .
 		}
 	}
 	return res
+}
+
+// c19RegisterRows normalises a register report for a comparison that ignores the order of the rows: the date, printed only
+// in the first row of its group, is filled into every row, then the lines are sorted.
+func c19RegisterRows(out string) string {
+	lines := strings.Split(out, "\n")
+	prev, have := "", false
+	for i, l := range lines {
+		if !strings.HasPrefix(l, "|") {
+			continue
+		}
+		j := strings.Index(l[1:], "|")
+		if j < 0 {
+			continue
+		}
+		cell := l[1 : j+1]
+		if strings.TrimSpace(cell) == "" && have {
+			lines[i] = "|" + prev + l[j+1:]
+		} else {
+			prev, have = cell, true
+		}
+	}
+	sort.Strings(lines)
+	return strings.Join(lines, "\n")
 }
 
 var reFloat = regexp.MustCompile(`-?\d+\.\d+`)
@@ -621,6 +647,9 @@ type genJournal struct {
 	Days   int    // distinct dates
 	Fault  string // "", "noprice", "unopened", "assert"
 	MinDay string
+	Span   int      // grow stream: last day (offset from 2020-01-01)
+	Coms   []string // grow stream: the foreign commodities
+	Groups []string // grow stream: second-level account segments
 }
 
 var c19Accounts = []string{"Assets:Bank", "Assets:Portfolio", "Assets:Cash:Wallet", "Liabilities:Card", "Expenses:Food", "Expenses:Rent:Flat", "Income:Salary", "Equity:Equity", "Assets:Accrued", "Expenses:Insurance"}
@@ -832,6 +861,7 @@ type procJob struct {
 	Cmd     procCmd
 	Seeds   []uint64
 	Race    bool
+	Long    bool // long journal: three times the usual watchdog timeouts
 	base    procResult
 	runs    []procResult
 	traces  []string
@@ -850,7 +880,11 @@ func (c *Ctx) c19RunProcJobs(jobs []*procJob) {
 		path := filepath.Join(jd, "journal.knut")
 		os.WriteFile(path, []byte(jb.J.Text), 0o644)
 		args := append(append([]string{}, jb.Cmd.Args...), path)
-		jb.base = runProc(10*time.Second, jd, nil, c.KnutBin, args...)
+		scale := time.Duration(1)
+		if jb.Long {
+			scale = 3
+		}
+		jb.base = runProc(scale*10*time.Second, jd, nil, c.KnutBin, args...)
 		for _, s := range jb.Seeds {
 			if jb.base.Timeout || (len(jb.runs) > 0 && jb.runs[len(jb.runs)-1].Timeout) {
 				break // one hang is enough: do not wait for the timeout again and again
@@ -862,7 +896,7 @@ func (c *Ctx) c19RunProcJobs(jobs []*procJob) {
 				to = 40 * time.Second
 			}
 			tr := filepath.Join(jd, fmt.Sprintf("trace-%d.txt", s))
-			pr := runProc(to, jd, []string{fmt.Sprintf("KNUT_VERIF_SEED=%d", s), "KNUT_VERIF_TRACE=" + tr}, bin, args...)
+			pr := runProc(scale*to, jd, []string{fmt.Sprintf("KNUT_VERIF_SEED=%d", s), "KNUT_VERIF_TRACE=" + tr}, bin, args...)
 			tb, _ := os.ReadFile(tr)
 			jb.runs = append(jb.runs, pr)
 			jb.traces = append(jb.traces, string(tb))
@@ -902,6 +936,11 @@ func (c *Ctx) c19CheckProcJob(bt *Batch, jb *procJob) {
 		if !sameOut && pr.Exit == 0 && (jb.Cmd.Name == "returns" || jb.Cmd.Name == "weights") {
 			// float64 sums over Go maps: the last printed digit (and the sign of zero) may differ from run to run
 			sameOut = fuzzyEqual(pr.Stdout, base.Stdout)
+		}
+		if !sameOut && pr.Exit == 0 && jb.Cmd.Name == "register" {
+			// the rows of one date of a register report come out in map iteration order (two plain runs of the unchanged
+			// binary differ; output determinism is C06's subject, and C06 does not list register): same rows, any order
+			sameOut = c19RegisterRows(pr.Stdout) == c19RegisterRows(base.Stdout)
 		}
 		if pr.Exit != 0 && base.Exit != 0 {
 			sameOut = strings.HasPrefix(pr.Stdout, base.Stdout) || strings.HasPrefix(base.Stdout, pr.Stdout)
@@ -983,6 +1022,485 @@ func (c *Ctx) c19Proc(stream string, race bool, njournals, ncmds, nseeds int) {
 				seeds = append(seeds, c.Seed*7919+uint64(i*31+s)+1)
 			}
 			jobs = append(jobs, &procJob{Stream: stream, Index: i, J: jr, Cmd: pc, Seeds: seeds, Race: race})
+		}
+	}
+	c.c19RunProcJobs(jobs)
+	bt := c.NewBatch()
+	for _, jb := range jobs {
+		c.c19CheckProcJob(bt, jb)
+	}
+	bt.Flush()
+}
+
+// ---------------------------------------------------------------- grow stream: journals that keep growing × flag combinations
+//
+// The journals of the trace / race streams have ten accounts and at most forty transactions: every account, every
+// valuation account and every mapped account exists after the first few days, so the stages of the per-day pipeline meet on
+// the shared structures (account registry and its tree, price tables, report) only while nothing changes any more. Here a
+// journal runs over hundreds of days and keeps changing what the stages share: accounts of depth 2-5 are opened (and some
+// closed again) throughout, under old and new parents on every level of the tree; commodities are introduced throughout and
+// re-priced (nearly) every day, so that the valuation stage books adjustments - and creates the Income:<path> valuation
+// account of every new position - on day m while the later stages (closing, query with --remap / -m / filters, report) still
+// work on days m-1, m-2, …. Every journal is run with random combinations of the flags that put work on shared structures
+// into different stages (-v, -m level 0-4 with and without suffix and regex, several -m rules, --remap, --account /
+// --commodity / --source / --dest filters, -s, intervals, --from/--to/--last, --diff, --close=false), on `balance` and
+// `register`, under the race detector and on the normal binary, with perturbed schedules.
+
+type c19gAcc struct {
+	name      string
+	bal       map[string]int
+	protected bool // never closed, never asserted
+	since     int
+}
+
+var c19gSegs = []string{"Bank", "Broker", "Dep", "Pf", "Acc", "Cash", "Sub", "Fund", "Loan", "Card"}
+
+func c19Cents(p int) string { return fmt.Sprintf("%d.%02d", p/100, p%100) }
+
+func genGrowJournal(r *RNG, fault string, thorough bool) genJournal {
+	type line struct {
+		day  int
+		text string
+	}
+	var lines []line
+	ndays := map[int]bool{}
+	add := func(d int, format string, a ...any) {
+		lines = append(lines, line{d, fmt.Sprintf(format, a...)})
+		ndays[d] = true
+	}
+	span := r.Range(100, 380)
+	if thorough {
+		span = r.Range(100, 600) // the time of a valued run grows with days × positions held
+	}
+	dens := r.Range(1, 3)
+	// commodities: introduced over time, (nearly) daily prices, some quoted in the first foreign commodity
+	names := []string{"USD", "EUR", "AAA", "BBB", "GLD", "T1", "Q2X", "ZZZZ"}
+	for i := len(names) - 1; i > 0; i-- {
+		j := r.Intn(i + 1)
+		names[i], names[j] = names[j], names[i]
+	}
+	ncom := r.Range(2, 7)
+	coms := names[:ncom]
+	intro := make([]int, ncom)
+	prob := make([]int, ncom)
+	base := make([]string, ncom)
+	cur := make([]int, ncom)
+	for k := range coms {
+		if k > 0 {
+			intro[k] = r.Range(0, span*3/4)
+		}
+		prob[k] = Pick(r, []int{100, 100, 85, 50})
+		base[k] = "CHF"
+		if k > 0 && r.Chance(1, 5) {
+			base[k] = coms[0]
+		}
+		cur[k] = r.Range(50, 50000)
+	}
+	sort.Ints(intro)
+	prob[0] = 100
+	unpriced := -1
+	if fault == "noprice" {
+		unpriced = r.Range(1, ncom-1)
+		base[unpriced] = "CHF"
+	}
+	// accounts
+	counter := 0
+	fresh := func() string {
+		counter++
+		return fmt.Sprintf("%s%d", Pick(r, c19gSegs), counter)
+	}
+	var open []*c19gAcc // open asset / liability accounts
+	prefixes := []string{"Assets", "Assets", "Liabilities"}
+	flows := map[string][]string{"Expenses": nil, "Income": nil}
+	newAL := func(d int, protected bool, name string) *c19gAcc {
+		if name == "" {
+			p := Pick(r, prefixes)
+			depth := strings.Count(p, ":") + 1
+			n := r.Range(1, 3)
+			if depth+n > 5 {
+				n = 5 - depth
+			}
+			if n < 1 {
+				n = 1
+				p = p[:strings.LastIndex(p, ":")]
+			}
+			name = p
+			for i := 0; i < n; i++ {
+				name += ":" + fresh()
+				prefixes = append(prefixes, name)
+			}
+		}
+		od := d
+		if r.Chance(1, 4) {
+			od = r.Range(max(0, d-12), d) // opened some days before the first booking
+		}
+		add(od, "%s open %s\n", c19Date(od), name)
+		a := &c19gAcc{name: name, bal: map[string]int{}, protected: protected, since: d}
+		open = append(open, a)
+		return a
+	}
+	flowAcc := func(d int, typ string) string {
+		l := flows[typ]
+		if len(l) > 0 && !r.Chance(1, 4) {
+			return Pick(r, l)
+		}
+		name := typ
+		if len(l) > 0 && r.Bool() {
+			name = Pick(r, l) // below an existing one
+			if strings.Count(name, ":") >= 3 {
+				name = typ
+			}
+		}
+		for n := r.Range(1, 2); n > 0; n-- {
+			name += ":" + fresh()
+		}
+		add(d, "%s open %s\n", c19Date(d), name)
+		flows[typ] = append(flows[typ], name)
+		return name
+	}
+	txn := 0
+	tx := func(d int, credit, debit string, qty int, com string) {
+		txn++
+		add(d, "%s \"t%d\"\n%s %s %d %s\n", c19Date(d), txn, credit, debit, qty, com)
+	}
+	add(0, "%s open Equity:Opening\n", c19Date(0))
+	main := newAL(0, false, "Assets:Bank:Main")
+	main.protected = true
+	prepaid := newAL(0, true, "Assets:Prepaid:Src")
+	add(0, "%s open Assets:Accrued\n", c19Date(0))
+	tx(0, "Equity:Opening", main.name, 100000, "CHF")
+	tx(0, "Equity:Opening", prepaid.name, 100000, coms[0])
+	main.bal["CHF"] = 100000
+	usable := func(d int) []string {
+		res := []string{}
+		for k, c := range coms {
+			if intro[k] <= d {
+				res = append(res, c)
+			}
+		}
+		return res
+	}
+	held := func(a *c19gAcc) (string, bool) { // a commodity of which the account holds a positive quantity
+		var cs []string
+		for c, q := range a.bal {
+			if q > 0 {
+				cs = append(cs, c)
+			}
+		}
+		if len(cs) == 0 {
+			return "", false
+		}
+		sort.Strings(cs)
+		return Pick(r, cs), true
+	}
+	faultDay := r.Range(span/3, span*2/3)
+	for d := 0; d <= span; d++ {
+		for k, c := range coms {
+			if intro[k] > d || k == unpriced {
+				continue
+			}
+			if intro[k] == d || r.Intn(100) < prob[k] {
+				step := r.Range(-cur[k]/20-1, cur[k]/20+1)
+				if step == 0 {
+					step = 1
+				}
+				cur[k] = max(1, cur[k]+step)
+				add(d, "%s price %s %s %s\n", c19Date(d), c, c19Cents(cur[k]), base[k])
+			}
+		}
+		if unpriced >= 0 && intro[unpriced] == d {
+			a := newAL(d, true, "") // the position without a price
+			tx(d, "Equity:Opening", a.name, 3, coms[unpriced])
+			a.bal[coms[unpriced]] += 3
+		}
+		if d == 0 {
+			continue
+		}
+		var asserts [][2]string
+		for ev := r.Intn(dens + 1); ev > 0; ev-- {
+			cs := usable(d)
+			kind := r.Intn(12)
+			switch {
+			case kind < 5: // a position in a new (or an old) account
+				var a *c19gAcc
+				if r.Chance(4, 5) || len(open) < 3 {
+					a = newAL(d, false, "")
+				} else {
+					a = Pick(r, open)
+				}
+				com := Pick(r, cs)
+				if r.Chance(1, 6) {
+					com = "CHF"
+				}
+				q := r.Range(1, 500)
+				tx(d, "Equity:Opening", a.name, q, com)
+				a.bal[com] += q
+			case kind < 7: // transfer between accounts
+				from := Pick(r, open)
+				to := Pick(r, open)
+				com, ok := held(from)
+				if !ok || from == to {
+					continue
+				}
+				q := r.Range(1, from.bal[com])
+				tx(d, from.name, to.name, q, com)
+				from.bal[com] -= q
+				to.bal[com] += q
+			case kind < 9: // expense
+				from := Pick(r, open)
+				com, ok := held(from)
+				if !ok {
+					continue
+				}
+				q := r.Range(1, max(1, from.bal[com]/4))
+				tx(d, from.name, flowAcc(d, "Expenses"), q, com)
+				from.bal[com] -= q
+			case kind < 10: // income
+				to := Pick(r, open)
+				com := "CHF"
+				if r.Chance(1, 3) {
+					com = Pick(r, cs)
+				}
+				q := r.Range(1, 3000)
+				tx(d, flowAcc(d, "Income"), to.name, q, com)
+				to.bal[com] += q
+			case kind < 11: // empty an account and close it
+				i := r.Intn(len(open))
+				a := open[i]
+				if a.protected || d-a.since < 2 {
+					continue
+				}
+				keys := make([]string, 0, len(a.bal))
+				for c := range a.bal {
+					keys = append(keys, c)
+				}
+				sort.Strings(keys)
+				for _, c := range keys {
+					switch q := a.bal[c]; {
+					case q > 0:
+						tx(d, a.name, main.name, q, c)
+						main.bal[c] += q
+					case q < 0:
+						tx(d, main.name, a.name, -q, c)
+						main.bal[c] += q
+					}
+					a.bal[c] = 0
+				}
+				add(d, "%s close %s\n", c19Date(d), a.name)
+				open = append(open[:i], open[i+1:]...)
+			default:
+				if r.Bool() { // an accrued expense in a priced commodity (the instalments are dated on later days)
+					iv := Pick(r, []string{"daily", "weekly", "monthly"})
+					end := d + r.Range(3, 60)
+					txn++
+					add(d, "@accrue %s %s %s Assets:Accrued\n%s \"t%d\"\n%s %s %d %s\n", iv, c19Date(d), c19Date(end), c19Date(d), txn, prepaid.name, flowAcc(d, "Expenses"), r.Range(3, 400), coms[0])
+					for _, pe := range c19PeriodEnds(iv, d, end) {
+						ndays[pe] = true
+					}
+				} else if a := Pick(r, open); !a.protected { // balance assertion (checked at the end of the day)
+					keys := make([]string, 0, len(a.bal))
+					for c := range a.bal {
+						keys = append(keys, c)
+					}
+					if len(keys) > 0 {
+						sort.Strings(keys)
+						asserts = append(asserts, [2]string{a.name, Pick(r, keys)})
+					}
+				}
+			}
+		}
+		for _, as := range asserts {
+			for _, a := range open {
+				if a.name == as[0] {
+					add(d, "%s balance %s %d %s\n", c19Date(d), a.name, a.bal[as[1]], as[1])
+				}
+			}
+		}
+		if d == faultDay {
+			switch fault {
+			case "unopened":
+				tx(d, main.name, "Expenses:Ghost", 1, "CHF")
+			case "assert":
+				add(d, "%s balance %s 123456789 CHF\n", c19Date(d), prepaid.name)
+			}
+		}
+	}
+	// file order is not date order (the builder sorts)
+	for i := len(lines) - 1; i > 0; i-- {
+		j := r.Intn(i + 1)
+		if r.Chance(1, 3) && lines[i].day != lines[j].day {
+			lines[i], lines[j] = lines[j], lines[i]
+		}
+	}
+	var b strings.Builder
+	for _, l := range lines {
+		b.WriteString(l.text)
+		b.WriteString("\n")
+	}
+	// names for the regular expressions of the flags
+	var groups []string
+	seen := map[string]bool{}
+	for _, p := range prefixes {
+		if ss := strings.Split(p, ":"); len(ss) >= 2 && !seen[ss[1]] {
+			seen[ss[1]] = true
+			groups = append(groups, ss[1])
+		}
+	}
+	return genJournal{Text: b.String(), Days: len(ndays), Fault: fault, Span: span, Coms: coms, Groups: groups}
+}
+
+// genGrowCmd draws one command line for a growing journal: `balance` or `register` with a random combination of the flags
+// that make the stages of the pipeline work on shared structures. force >= 0 fixes -v CHF and the -m level (so that every
+// journal meets valuation with every level); everything else is drawn.
+func genGrowCmd(r *RNG, jr genJournal, force int) procCmd {
+	register := r.Chance(1, 4)
+	val := force >= 0 || r.Chance(3, 4)
+	name := "balance"
+	n := 3
+	if register {
+		name = "register"
+		n = 4
+	}
+	args := []string{name, "--color=false"}
+	if val {
+		args = append(args, "-v", "CHF")
+		n += 2
+	}
+	rx := func() string {
+		switch r.Intn(8) {
+		case 0:
+			return "Income"
+		case 1:
+			return "Assets"
+		case 2:
+			return "Expenses|Income"
+		case 3:
+			return "."
+		case 4:
+			return "^(Assets|Liabilities)"
+		case 5:
+			return Pick(r, jr.Groups)
+		case 6:
+			return "(Assets|Income):" + Pick(r, jr.Groups)
+		}
+		return "[0-9]*[02468]$"
+	}
+	mapRule := func(level int) string {
+		s := itoa(level)
+		if level > 0 && r.Chance(1, 3) {
+			s += ":" + itoa(r.Range(1, 2))
+		}
+		if r.Chance(1, 2) {
+			s += "," + rx()
+		}
+		return s
+	}
+	if force >= 0 {
+		args = append(args, "-m", mapRule(force))
+	} else if r.Chance(3, 4) {
+		level := Pick(r, []int{0, 1, 1, 2, 2, 2, 3, 3, 3, 4, 4})
+		if register && level == 0 {
+			// `register -m 0[,<regex>]` maps the other account to nil and the renderer's sort dereferences it (a panic after the
+			// pipeline has finished, whatever the schedule: a robustness defect of the command, not a statement of C19)
+			level = 1
+		}
+		args = append(args, "-m", mapRule(level))
+	}
+	if r.Chance(1, 4) {
+		args = append(args, "-m", mapRule(r.Range(1, 4))) // a second rule: the first matching rule decides
+	}
+	if r.Chance(1, 3) {
+		args = append(args, "--remap", rx())
+	}
+	windowed := false
+	if r.Chance(1, 2) {
+		args = append(args, Pick(r, []string{"--days", "--weeks", "--months", "--quarters", "--years"}))
+		windowed = true
+		if r.Chance(1, 4) {
+			args = append(args, "--last", itoa(r.Range(1, 6)))
+		}
+	}
+	from := 0
+	if r.Chance(1, 5) {
+		from = r.Range(0, jr.Span)
+		args = append(args, "--from", c19Date(from))
+		windowed = true
+	}
+	if r.Chance(1, 5) {
+		args = append(args, "--to", c19Date(r.Range(from, jr.Span+10)))
+		windowed = true
+	}
+	if r.Chance(1, 4) {
+		args = append(args, "--commodity", Pick(r, append([]string{"CHF", ".", "CHF|" + jr.Coms[0]}, jr.Coms...)))
+	}
+	if r.Chance(1, 8) {
+		args = append(args, "-k")
+	}
+	if r.Chance(1, 6) {
+		args = append(args, "--digits", itoa(r.Range(0, 6)))
+	}
+	if register {
+		if r.Chance(1, 4) {
+			args = append(args, "--source", rx())
+		}
+		if r.Chance(1, 4) {
+			args = append(args, "--dest", rx())
+		}
+		for _, f := range []string{"-c", "-d", "-a", "-s"} {
+			if r.Chance(1, 3) {
+				args = append(args, f)
+			}
+		}
+	} else {
+		if r.Chance(1, 3) {
+			args = append(args, "--close=false")
+		} else {
+			n++
+		}
+		if r.Chance(1, 4) {
+			args = append(args, "--account", rx())
+		}
+		if r.Chance(1, 4) {
+			args = append(args, "-s", Pick(r, append([]string{"."}, jr.Coms...)))
+		}
+		if r.Chance(1, 4) {
+			args = append(args, "--diff")
+		}
+		if r.Chance(1, 5) {
+			args = append(args, "--csv")
+		}
+		if r.Chance(1, 5) {
+			args = append(args, "--sort")
+		}
+	}
+	return procCmd{Name: name, Args: args, Stages: []int{n}, DaysOK: !windowed, Valued: val}
+}
+
+// c19Grow runs the grow stream: njournals growing journals × ncmds commands; the first four commands of a journal are -v CHF
+// with -m level 1, 2, 3, 4, the others are drawn freely. Three of four jobs run under the race detector.
+func (c *Ctx) c19Grow(stream string, njournals, ncmds, nseeds int) {
+	var jobs []*procJob
+	idx := 0
+	faults := []string{"", "", "", "", "", "", "", "noprice", "unopened", "assert"}
+	for j := 0; j < njournals; j++ {
+		r := c.Rng(stream, j)
+		jr := genGrowJournal(r, Pick(r, faults), c.Thorough())
+		for k := 0; k < ncmds; k++ {
+			force := -1
+			if k < 4 {
+				force = k + 1
+			}
+			pc := genGrowCmd(r, jr, force)
+			i := idx
+			idx++
+			if !c.Want(stream, i) {
+				continue
+			}
+			var seeds []uint64
+			for s := 0; s < nseeds; s++ {
+				seeds = append(seeds, c.Seed*7919+uint64(i*31+s)+1)
+			}
+			jobs = append(jobs, &procJob{Stream: stream, Index: i, J: jr, Cmd: pc, Seeds: seeds, Race: (j+k)%4 != 3, Long: true})
 		}
 	}
 	c.c19RunProcJobs(jobs)
@@ -1653,32 +2171,54 @@ func runC19(c *Ctx) {
 	if _, err := os.Stat(c.KnutBin + ".race"); err != nil {
 		fatalf("race binary %s.race missing (props entry needs \"race\": True)", c.KnutBin)
 	}
-	t0 := time.Now()
-	if !c.Replay || c.OnlyStr == "seq" || c.OnlyStr == "seq-directed" {
-		c.c19Seq()
+	// on(stream…): the stream runs in a full run, or is the one being replayed; C19_STREAMS=a,b restricts a run to some streams (development aid)
+	on := func(streams ...string) bool {
+		for _, s := range streams {
+			if c.Replay && c.OnlyStr == s {
+				return true
+			}
+			if only := os.Getenv("C19_STREAMS"); !c.Replay && (only == "" || strings.Contains(","+only+",", ","+s+",")) {
+				return true
+			}
+		}
+		return false
 	}
-	c.Extra["seq_s"] = time.Since(t0).Seconds()
-	t0 = time.Now()
-	if !c.Replay || c.OnlyStr == "trace" {
-		c.c19Proc("trace", false, c.N(100, 1000), c.N(5, 6), c.N(2, 3))
+	timed := func(key string, f func()) {
+		t0 := time.Now()
+		f()
+		c.Extra[key] = time.Since(t0).Seconds()
 	}
-	c.Extra["trace_s"] = time.Since(t0).Seconds()
-	t0 = time.Now()
-	if !c.Replay || c.OnlyStr == "race" {
-		c.c19Proc("race", true, c.N(24, 150), c.N(7, 10), c.N(2, 3))
-	}
-	c.Extra["race_s"] = time.Since(t0).Seconds()
-	t0 = time.Now()
-	if !c.Replay || c.OnlyStr == "loader" || c.OnlyStr == "loader-directed" {
-		c.c19Loader()
-	}
-	c.Extra["loader_s"] = time.Since(t0).Seconds()
-	t0 = time.Now()
-	if !c.Replay || c.OnlyStr == "shared" {
-		c.c19Shared()
-	}
-	c.Extra["shared_s"] = time.Since(t0).Seconds()
-	if !c.Replay || c.OnlyStr == "registry" {
+	timed("seq_s", func() {
+		if on("seq", "seq-directed") {
+			c.c19Seq()
+		}
+	})
+	timed("trace_s", func() {
+		if on("trace") {
+			c.c19Proc("trace", false, c.N(100, 1000), c.N(5, 6), c.N(2, 3))
+		}
+	})
+	timed("race_s", func() {
+		if on("race") {
+			c.c19Proc("race", true, c.N(24, 150), c.N(7, 10), c.N(2, 3))
+		}
+	})
+	timed("grow_s", func() {
+		if on("grow") {
+			c.c19Grow("grow", c.N(6, 30), c.N(8, 12), c.N(2, 3))
+		}
+	})
+	timed("loader_s", func() {
+		if on("loader", "loader-directed") {
+			c.c19Loader()
+		}
+	})
+	timed("shared_s", func() {
+		if on("shared") {
+			c.c19Shared()
+		}
+	})
+	if on("registry") {
 		c.c19Registry()
 	}
 }
